@@ -234,13 +234,13 @@ impl Summary {
 fn summarize<'a>(r: IResult<&'a [u8], Vec<TlsMessage<'a>>>, slices: &mut Slices) -> Summary {
     let (out, v) = split(r);
     match v {
-        Some((rem, msgs)) => {
+        Some((rem, msgs)) => crate::guard::unmetered(|| {
             visit::messages(slices, &msgs);
             visit::push(slices, rem, "remainder");
-            // Debug formatting of every returned value belongs to the call (C01)
+            // Debug formatting of every returned value runs under the same catch_unwind (C01)
             let _ = format!("{:?}", msgs);
             Summary { out, msgs: msgs.iter().map(val::msg_to_item).collect(), rem: rem.to_vec() }
-        }
+        }),
         None => Summary { out, msgs: Vec::new(), rem: Vec::new() },
     }
 }
